@@ -93,8 +93,11 @@ def scratch(tag):
     shutil.rmtree(d, ignore_errors=True)
     os.makedirs(d)
     for f in os.listdir(SPEC):
-        if f.endswith(".tla") or f.endswith(".cfg"):
-            shutil.copy(os.path.join(SPEC, f), d)
+        if (f.endswith(".tla") or f.endswith(".cfg")) and "_TTrace_" not in f:
+            try:
+                shutil.copy(os.path.join(SPEC, f), d)
+            except FileNotFoundError:   # a stray file of a TLC run by hand that was removed meanwhile
+                pass
     return d
 
 
